@@ -78,6 +78,16 @@ def oracle_ranges(impl, ranges_sx, reg_sx, prec):
             for c, v in d.items():
                 if v == 0 and exact.get(a, {}).get(c, Fraction(0)) == 0:
                     out.append("range %s..%s: account %s shows commodity %s whose total is zero" % (rr[0], rr[1], a, c))
+    # the register restricted to one account lists exactly that account's postings, in order
+    filtered = [x for x in reg_sx if x and x[0] == "filtered"]
+    reg_sx = [x for x in reg_sx if not (x and x[0] == "filtered")]
+    for fx in filtered:
+        acct = dec(fx[1])
+        got = [(dec(it[0]), sexp.amount(it[1])) for it in fx[2:]]
+        want = [(a, x) for t in txns for (a, x, _c) in t["postings"] if a == acct]
+        if got != want:
+            out.append("register of account %s lists %d postings %s, the account has %d postings %s"
+                       % (acct, len(got), [fmt_amt(x) for _, x in got][:6], len(want), [fmt_amt(x) for _, x in want][:6]))
     # register total == whole-history balance
     if reg_sx:
         last = sexp.amount(reg_sx[-1][2])
